@@ -303,7 +303,61 @@ def run_services(ctx: Ctx, apiv: tuple[int, int]) -> None:
                               f"execute_service({case['types']}) @api {apiv}: decoded {str(new[0]['msg'])[:150]!r} != expected {str(exp)[:150]!r}", case)
 
 
+def run_multi_session(ctx: Ctx, versions: list[tuple[int, int]]) -> None:
+    """ONE APIClient over several consecutive sessions with different negotiated API versions: every version-dependent request must follow
+    the version of the session it is sent in (nothing remembered from an earlier session, e.g. per-service or per-entity encodings)."""
+    from aioesphomeapi import api_pb2 as pb
+
+    res = ctx.res
+    m = M()
+    T = m.UserServiceArgType
+    svc = m.UserService(name="svc", key=4242, args=[m.UserServiceArg(name="n", type=T.INT), m.UserServiceArg(name="s", type=T.STRING),
+                                                  m.UserServiceArg(name="l", type=T.INT_ARRAY)])
+    with Sim() as sim:
+        cfg = DeviceConfig(api_major=versions[0][0], api_minor=versions[0][1])
+        dev = sim.device(cfg)
+        cli = sim.client(keepalive=1e5)
+        for si, apiv in enumerate(versions):
+            cfg.api_major, cfg.api_minor = apiv
+            c = sim.call("connect", lambda: cli.connect(login=False))
+            sim.run(until=lambda: c.done, max_time=sim.clock + 50)
+            if c.outcome != "ok":
+                res.inconclusive.append(f"multi-session connect failed: {c.exc!r}")
+                return
+            shim = type("S", (), {"dev": dev, "cli": cli, "last": lambda self, n0: dev.conn.received[n0:]})()
+            # execute_service, same service key in every session
+            n0 = len(dev.conn.received)
+            cli.execute_service(svc, {"n": 7 + si, "s": "x", "l": [1, 2]})
+            exp = pb.ExecuteServiceRequest(key=4242)
+            a = exp.args.add()
+            setattr(a, "int_" if apiv >= (1, 3) else "legacy_int", 7 + si)
+            exp.args.add().string_ = "x"
+            exp.args.add().int_array.extend([1, 2])
+            new = dev.conn.received[n0:]
+            res.evaluations += 1
+            res.count("calls/multi-session/execute_service")
+            res.sig("multi-session", "execute_service", si, apiv)
+            case = {"method": "execute_service", "session": si, "versions": [list(v) for v in versions], "api_version": list(apiv)}
+            if len(new) != 1 or new[0]["msg"] != exp:
+                res.violation("C15/execute_service/arguments/multi-session", f"session {si} @api {apiv} after sessions {versions[:si]}: decoded "
+                              f"{str(new[0]['msg'] if new else None)[:120]!r} != expected {str(exp)[:120]!r}", case)
+            # cover / climate, same entity key in every session
+            for method, supplied in (("cover_command", {"position": 1.0}), ("cover_command", {"position": 0.5, "tilt": 0.25}), ("cover_command", {"stop": True}),
+                                     ("climate_command", {"preset": m.ClimatePreset.AWAY}), ("climate_command", {"preset": m.ClimatePreset.HOME, "target_temperature": 21.0})):
+                expq = expected_request(method, 77, supplied, {}, apiv)
+                n0 = len(dev.conn.received)
+                getattr(cli, method)(77, **supplied)
+                judge(ctx, shim, n0, method, expq, supplied, {}, "multi-session", apiv, "plain")
+            d = sim.call("disconnect", lambda: cli.disconnect())
+            sim.run(until=lambda: d.done, max_time=sim.clock + 50)
+            sim.run_for(0.1)
+
+
 def shard(ctx: Ctx) -> None:
+    if ctx.shard < 6:
+        orders = [[(1, 2), (1, 10), (1, 0), (1, 5), (1, 4), (2, 0)], [(1, 10), (1, 2), (1, 10)], [(1, 0), (1, 1), (1, 0)], [(1, 4), (1, 5), (1, 4), (2, 1)],
+                  [(2, 0), (1, 2), (2, 5), (1, 3)], [(1, 3), (1, 2), (1, 3), (1, 2)]]
+        run_multi_session(ctx, orders[ctx.shard])
     all_methods = list(REQUEST) + list(FIXED)
     thr = ctx.thorough
     # current API: everything, every subset
